@@ -175,9 +175,9 @@ func (c *Case) qopts() *promql.QueryOpts {
 
 func (c *Case) NewQuery(e queryEngine, st storage.Queryable) (promql.Query, error) {
 	if c.Instant() {
-		return e.NewInstantQuery(st, c.qopts(), c.Query, ms(c.Start))
+		return e.NewInstantQuery(st, c.qopts(), c.Query, c.tStart())
 	}
-	return e.NewRangeQuery(st, c.qopts(), c.Query, ms(c.Start), ms(c.End), time.Duration(c.Step)*time.Millisecond)
+	return e.NewRangeQuery(st, c.qopts(), c.Query, c.tStart(), c.tEnd(), time.Duration(c.Step)*time.Millisecond)
 }
 
 // Exec creates, executes and closes a query; a creation error is reported as an error result
